@@ -19,20 +19,28 @@ PROP = {
     "race_oracle": True,
     "race_files": ["extras/outbounds/acl/", "extras/outbounds/acl.go"],
     "min_events": 50000,
-    "rule": ("rule lists of 1..12 rules are drawn in a structured form (address kind exact / suffix: / "
+    "rule": ("rule lists of 1..12 (with an order block at most 13) rules are drawn in a structured form (address kind exact / suffix: / "
              "wildcard / IP / CIDR / all over a small per-case universe of domains, IPv4 and IPv6 networks "
              "and ports, so rules overlap; protocol tcp|udp|both; no port, single port or inclusive range; "
-             "optional IPv4/IPv6 hijack address), rendered to rule-file text (mixed case, trailing dots, "
+             "optional IPv4/IPv6 hijack address). Every other rule list embeds an ORDER-sensitivity block: one "
+             "address pattern (exact, suffix, wildcard, IP or CIDR) occurs 2..4 times with different outbounds, "
+             "protocols, port sets overlapping around a common port and hijack addresses, with exact-name rules "
+             "for other names that share (outbound, proto/port, hijack) with the first / last / any occurrence "
+             "placed ahead of, between and after the occurrences (runs of exact-only rules), optionally between "
+             "random rules. Lists are rendered to rule-file text (mixed case, trailing dots, "
              "comments, blank lines, spacing, `all` vs `*`, the documented protoPort spellings) and compiled "
              "by the real ParseTextRules+Compile. Queries are derived from the rules: names equal to a "
              "pattern, `x`+pattern, sub-domain, parent, pattern+`x`, other TLD, wildcard instantiations and "
              "their neighbours, upper-case and trailing-dot variants; IPs at both edges of each CIDR, one "
              "beyond each edge, the sibling network, IP rule +-1, IPv4 in 4- and 16-byte form, IPv4+IPv6 "
              "together, IP literals as host; ports lo-1, lo, hi, hi+1, mid of rules that cover the host; both "
-             "protocols; plus random ones. Each history asks every query >= 3 times at different points "
+             "protocols; a quarter of the hosts are drawn from addresses that occur in several rules and are probed at "
+             "the port edges of ALL rules covering them; plus random ones. Each history asks every query >= 3 times at different points "
              "(permutation, immediate/near repeats, sibling bursts, derivation order, permutation) against "
              "cache sizes 1, 4 and 1024 (and > 1024 distinct queries against 1024), then a cold lookup on a "
-             "fresh rule set. Engine layer: the same cases through aclEngine with recording fake outbounds. "
+             "fresh rule set. Engine layer: the same cases through aclEngine with recording fake outbounds; requests "
+             "carry ResolveInfo nil / empty / Err only / addresses / addresses together with Err (partial "
+             "resolution: one of the A/AAAA lookups failed), the last judged on the addresses present. "
              "A case = (rule list, query); non-trivial when the query is decided by a rule (not a miss); "
              "distinct = distinct (rule file text, query)."),
     "assumptions": [
@@ -43,6 +51,8 @@ PROP = {
         "IP and CIDR patterns are matched against the resolved IPv4/IPv6 of the request, family-strict; "
         "IPv4-mapped IPv6 addresses are not generated",
         "not demanded: `|` in names, IDN / xn-- labels, port 0 in rules, geoip:/geosite: matchers",
+        "interface.go documents that ResolveInfo may hold an error together with resolved addresses; such "
+        "addresses are resolved addresses of the host and IP/CIDR rules apply to them (Err alone: name only)",
         "a host name that is an IP literal always comes with that IP as its resolved address (as the resolver "
         "stage produces it)",
     ],
